@@ -265,6 +265,7 @@ def binding_selftest(wd, trace):
     with open(trace) as f:
         lines = [json.loads(l) for l in f]
     out = {}
+    base_desync = validate([trace], wd)[0]["stats"].get("desync", 0)
 
     def run(name, mutate):
         ls = [dict(x) for x in lines]
@@ -277,7 +278,11 @@ def binding_selftest(wd, trace):
                 f.write(json.dumps(x) + "\n")
         try:
             r = validate([path], wd)[0]
-            out[name] = "rejected" if r["viols"] else "ACCEPTED (binding broken)"
+            # (an event that refers to an object the shortened history no longer produces makes the
+            #  history unexplainable: PTrace stops following it and counts it in `desync`)
+            unexplainable = r["stats"].get("desync", 0) > base_desync
+            out[name] = "rejected" if r["viols"] else ("rejected (history no longer explainable)" if unexplainable
+                                                        else "ACCEPTED (binding broken)")
         except ToolError:
             out[name] = "rejected (trace not consumable)"
 
